@@ -493,8 +493,15 @@ pub mod tt {
         let d: u64 = match pat {
             // tiny variations: deltas alternate 100, 101 (|change| = 1)
             0 => 100 + (probe % 2) as u64,
-            // coarse: every delta a multiple of 100, large variations
-            1 => 100 * (1 + (probe * probe) % 7) as u64 + 100 * ((probe % 3) as u64) * 7,
+            // coarse: 262 counted deltas that are multiples of 100 with large
+            // variations (threshold 270), then deltas that are not
+            1 => {
+                if probe < 362 {
+                    100 * (1 + (probe * probe) % 7) as u64 + 100 * ((probe % 3) as u64) * 7
+                } else {
+                    1037 + 13 * ((probe * probe) % 7) as u64 + (probe % 2) as u64
+                }
+            }
             // stuck: constant delta for 262 counted probes (threshold 270), then varied
             _ => {
                 if probe < 362 {
